@@ -36,6 +36,17 @@ def classes():
 
 map_size = z3.Function("map_size", z3.IntSort(), z3.IntSort())
 deque_maxlen = z3.Function("deque_maxlen", z3.IntSort(), z3.IntSort())  # -1: unbounded
+
+
+def deque_history(st, addr):
+    """(items, count): everything ever appended to the deque at ``addr`` in state ``st`` (kept in st.aux)."""
+    if "dqv" not in st.aux:
+        st.aux["dqv"] = z3.Const("dqv0", z3.ArraySort(z3.IntSort(), z3.ArraySort(z3.IntSort(), V.Val)))
+    if "dqn" not in st.aux:
+        st.aux["dqn"] = z3.Const("dqn0", z3.ArraySort(z3.IntSort(), z3.IntSort()))
+    return z3.Select(st.aux["dqv"], addr), z3.Select(st.aux["dqn"], addr)
+
+
 # the set of elements of a sequence (spec function; uninterpreted: only "the same sequence has the same members" is used)
 seq_members = z3.Function("seq_members", V.ValSeq, z3.ArraySort(V.Val, z3.BoolSort()))
 
@@ -905,48 +916,60 @@ def install(eng):
         yield st, None
 
     # ------------------------------------------------------------------ collections.deque (append / index / len only)
-    # The *history* of everything appended is kept in st.lists; a bounded deque shows its last `maxlen` items.
-    # pop / popleft / appendleft are not modelled for bounded deques (they would need the dropped items back).
+    # The *history* of everything appended is kept (st.aux: an array of items and a count per deque); a bounded
+    # deque shows its last `maxlen` items.  pop / popleft / appendleft are not modelled (bounded deques would need
+    # the dropped items back).
     import collections as _coll
 
     def dq_parts(st, self):
         a = V.Val.a(self.t)
-        hist = z3.Select(st.lists, a)
+        items, cnt = deque_history(st, a)
         mx = deque_maxlen(a)
-        n = z3.Length(hist)
-        return a, hist, mx, z3.If(z3.And(mx >= 0, mx < n), mx, n)
+        return a, items, cnt, z3.If(z3.And(mx >= 0, mx < cnt), mx, cnt)
 
     @reg(_coll.deque, "collections.deque")
     def m_deque(eng, st, args, kw):
         sv = eng.alloc(st, _coll.deque)
         src = args[0] if args else kw.get("iterable", ())
         mx = args[1] if len(args) > 1 else kw.get("maxlen")
-        sq = seq_content(eng, src, st)
+        if isinstance(src, SV):
+            for st1, its in eng.iter_concrete(src, st):
+                src = its
+                st = st1
+                break
+        if not isinstance(src, (tuple, list)):
+            raise Unsupported("deque(iterable) of symbolic length")
         mt = z3.IntVal(-1) if mx is None else V.int_of(eng.lift(mx, st))
-        st.assume(deque_maxlen(V.Val.a(sv.t)) == mt)
-        st.lists = z3.Store(st.lists, V.Val.a(sv.t), sq)
+        a = V.Val.a(sv.t)
+        st.assume(deque_maxlen(a) == mt)
+        items, _ = deque_history(st, a)
+        for i_, x in enumerate(src):
+            items = z3.Store(items, i_, eng.lift(x, st))
+        st.aux["dqv"] = z3.Store(st.aux["dqv"], a, items)
+        st.aux["dqn"] = z3.Store(st.aux["dqn"], a, z3.IntVal(len(src)))
         # (an initial iterable longer than maxlen would be truncated: not needed, so it is an obligation)
-        eng.oblige(st, "deque(iterable, maxlen): the initial items fit", z3.Or(mt < 0, z3.Length(sq) <= mt), "model-pre")
+        eng.oblige(st, "deque(iterable, maxlen): the initial items fit", z3.Or(mt < 0, len(src) <= mt), "model-pre")
         yield st, sv
 
     @mm(_coll.deque, "append")
     def dq_append(eng, st, args, kw):
         self, x = args
-        a, hist, mx, n = dq_parts(st, self)
+        a, items, cnt, n = dq_parts(st, self)
         xt = eng.lift(x, st)
         eng.escape(st, xt)
-        st.lists = z3.Store(st.lists, a, z3.Concat(hist, z3.Unit(xt)))
+        st.aux["dqv"] = z3.Store(st.aux["dqv"], a, z3.Store(items, cnt, xt))
+        st.aux["dqn"] = z3.Store(st.aux["dqn"], a, cnt + 1)
         yield st, None
 
     @mm(_coll.deque, "__len__")
     def dq_len(eng, st, args, kw):
-        a, hist, mx, n = dq_parts(st, args[0])
+        a, items, cnt, n = dq_parts(st, args[0])
         yield st, SV(V.mk_int(n))
 
     @mm(_coll.deque, "__getitem__")
     def dq_getitem(eng, st, args, kw):
         self, idx = args
-        a, hist, mx, n = dq_parts(st, self)
+        a, items, cnt, n = dq_parts(st, self)
         isint, i = _int_index(eng, st, idx)
         for st1, ok in eng.branch(isint, st):
             if not ok:
@@ -955,7 +978,7 @@ def install(eng):
             j = z3.If(i < 0, i + n, i)
             for st2, inb in eng.branch(z3.And(j >= 0, j < n), st1):
                 if inb:
-                    r = z3.simplify(hist[z3.Length(hist) - n + j])
+                    r = z3.Select(items, z3.simplify(cnt - n + j))
                     st2.assume(eng.external_ref_fact(st2, r))
                     et = getattr(eng, "elem_type", None)
                     et = et(eng, st2, self) if et is not None else None
